@@ -292,7 +292,7 @@ pub fn run(ctx: &Ctx) -> Report {
         }
     });
     rep.merge(r);
-    if !ctx.miri && ctx.only.is_none() {
+    if ctx.strict() {
         rep.require("greetings_parsed", 1000);
         rep.require("rejections", 100);
         rep.require("accepts", 1000);
